@@ -1,19 +1,56 @@
 from props import job
 
+_CM = "TestVerifC07CircuitMap"
+_SW = "TestVerifC07Switch"
+_RACE = "TestVerifC07Race"
+
 PROP = dict(
     level="exploration",
-    rule=("TestVerifC07CircuitMap: one case = one generated op sequence (5..50 ops) over the real "
-          "circuit map on a bbolt file; non-trivial = the sequence contains a restart after >=1 open "
-          "circuit that trimmed or purged >=1 keystone, or a duplicate CommitCircuits presentation of a "
-          "circuit loaded from disk (the LoadedFromDisk cell). Distinct = distinct op logs."),
-    assumptions=[],
+    technique="rapid state machines vs reference models (circuit map on bbolt with a write-fault wrapper; "
+              "real Switch with harness-played links and a barrier command instead of waits); "
+              "goroutine race checked for linearizability against the model",
+    rule=("Three tests. (1) TestVerifC07CircuitMap: one case = one generated op sequence (5..50 ops: "
+          "CommitCircuits batches with duplicates, OpenCircuits, TrimOpenCircuits, CloseCircuit, FailCircuit, "
+          "DeleteCircuits, injected write failures, restarts with generated closed/pending/open channels, "
+          "next-local-HTLC indexes and pending resolution messages) over the real circuit map on a bbolt file; "
+          "after every op all lookups over the key universe, counters and both DB buckets are compared with "
+          "the reference model. Non-trivial = the sequence contains a restart after >=1 open circuit that "
+          "trimmed or purged >=1 keystone, or a duplicate CommitCircuits presentation of a circuit loaded "
+          "from disk (the LoadedFromDisk cell). (2) TestVerifC07Switch: one case = 5..40 link/node actions "
+          "against a real Switch; non-trivial = a duplicate add (same lifetime or after a switch restart), a "
+          "duplicate response, or a response replayed after the incoming link resolved the HTLC was presented. "
+          "(3) TestVerifC07Race: 2-3 goroutines on one circuit; non-trivial = >=2 calls competed for the "
+          "response slot of the same live circuit. Distinct = distinct op logs."),
+    level_note=("The race part explores only the schedules the Go runtime happens to produce (weak by "
+                "nature); crash points of the circuit map are covered because every mutating call is one "
+                "atomic bbolt transaction and a restart is generated between any two calls."),
+    assumptions=[
+        "TrimOpenCircuits caller contract (documented in the function): keystones at or above the "
+        "channel's next unallocated htlc index form a gap-free run; generated indexes are adjusted upwards "
+        "to the next value that satisfies it (label start_adjusted)",
+        "links open a forwarded packet once: OpenCircuits is never called for a circuit that already has a "
+        "keystone, and outgoing/incoming keys inside one OpenCircuits batch are distinct",
+        "an incoming link replays an add only until it has durably processed a response for it "
+        "(forwarding-package ack is atomic with the commitment that carries the response)",
+        "a remote peer answers only HTLCs that reached a commitment (outgoing id below the committed index)",
+        "write failures are injected as a failing bbolt transaction of CommitCircuits/OpenCircuits/"
+        "DeleteCircuits/NewCircuitMap; TrimOpenCircuits write failures are not injected (no documented "
+        "rollback contract)",
+        "switch level covers forwarded HTLCs only (no locally initiated payments); closed-channel purging "
+        "is exercised at circuit-map level only",
+    ],
     jobs=dict(
         quick=[
-            job("htlcswitch", "^TestVerifC07CircuitMap$", ["TestVerifC07CircuitMap"], 400, shards=4),
+            job("htlcswitch", "^TestVerifC07CircuitMap$", [_CM], 400, shards=4),
+            job("htlcswitch", "^TestVerifC07Switch$", [_SW], 300, shards=4),
+            job("htlcswitch", "^TestVerifC07Race$", [_RACE], 150, shards=2),
         ],
         thorough=[
-            job("htlcswitch", "^TestVerifC07CircuitMap$", ["TestVerifC07CircuitMap"], 4000, shards=8,
-                timeout=900),
+            job("htlcswitch", "^TestVerifC07CircuitMap$", [_CM], 3000, shards=8, timeout=900,
+                env=dict(VERIF_C07_STEPS=70)),
+            job("htlcswitch", "^TestVerifC07Switch$", [_SW], 1500, shards=6, timeout=900,
+                env=dict(VERIF_C07_SWSTEPS=60)),
+            job("htlcswitch", "^TestVerifC07Race$", [_RACE], 600, shards=4, timeout=900, race=True),
         ],
     ),
 )
